@@ -28,3 +28,17 @@ Theorem C10_rename : forall L, fsound_ok L -> (fl_hd L = false -> neg_flips_t (s
       ~ fcountermodel (fl_S L) M u (map (rename r) prems) (rename r concl).
 Proof. exact rename_sound. Qed.
 Print Assumptions C10_rename.
+
+(* monotonicity over arbitrary (finite or infinite) structures *)
+From PT Require Import Sem.AModel Tab.ASound.
+Theorem C10_monotone_all_structures : forall L, fsound_ok L ->
+  (fl_hd L = false -> neg_flips_t (s_t (fl_S L)) = true) ->
+  forall t prems concl extra,
+    gcheck L t (trunk (fl_hd L) 0 prems concl) [] = true -> gall_closed t = true ->
+    forall (M : amodel (fl_S L)), amodel_ok L M -> forall u ce,
+      ~ acountermodel (fl_S L) M u ce (extra :: prems) concl.
+Proof.
+  intros L OK Hn t prems concl extra Hck Hac M Hm u ce.
+  apply (no_conflict_a L OK Hn t prems concl (extra :: prems) Hck Hac); [intros p Hp; right; exact Hp|exact Hm].
+Qed.
+Print Assumptions C10_monotone_all_structures.
